@@ -317,3 +317,87 @@ Print Assumptions gen_int_text_roundtrip.
 Print Assumptions gen_val_to_num_is_model.
 Print Assumptions gen_guess_int.
 Print Assumptions gen_relname_is_model.
+
+(* ------------------------------------------------------------------------------------------------ end to end, hive, on regenerated text
+   Writer: pandas' group-by (model `group_by`, premise) with the file of each group named by the REGENERATED naming statements of
+   writer.partition_on_columns; reader: the REGENERATED _strip_path_tail, paths_to_cats and _path_to_cats, then the model of
+   core.read_row_group.  C08_multiset_hive holds for this composition.                                                             *)
+From Coq Require Import Permutation.
+From Pq Require Import Proofs.PartitionE2E.
+
+Section GenE2E.
+  Variables F T D : Type.
+  Variable feqb : F -> F -> bool.
+  Variable teqb : T -> T -> bool.
+  Variable deqb : D -> D -> bool.
+  Variable f_eq_Z : F -> Z -> bool.
+  Variable show_float : F -> str.
+  Variable parse_float : bool -> str -> option F.
+  Variable show_time_iso show_time_str : T -> str.
+  Variable parse_time_np : bool -> str -> option T.
+  Variable parse_time_fmt parse_time_pd : str -> option T.
+  Variable parse_delta : str -> option D.
+  Hypothesis feqb_spec : forall a b, reflect (a = b) (feqb a b).
+  Hypothesis teqb_spec : forall a b, reflect (a = b) (teqb a b).
+  Hypothesis deqb_spec : forall a b, reflect (a = b) (deqb a b).
+  Variable P : Type.
+  Notation row := (row F T D P).
+  Notation value := (value F T D).
+  Notation val_to_num := (val_to_num F T D parse_float parse_time_np parse_time_fmt parse_time_pd parse_delta).
+  Notation cats_add := (cats_add F T D feqb teqb deqb f_eq_Z).
+  Notation read_files := (read_files F T D feqb teqb deqb f_eq_Z parse_float parse_time_np parse_time_fmt parse_time_pd parse_delta P).
+  Notation read_model := (read_model F T D feqb teqb deqb f_eq_Z parse_float parse_time_np parse_time_fmt parse_time_pd parse_delta P).
+  Notation write_model := (write_model F T D feqb teqb deqb f_eq_Z show_float show_time_iso show_time_str P).
+  Notation group_by := (group_by F T D feqb teqb deqb f_eq_Z P).
+
+  (* one file per (row group i, key present in it), named by the regenerated statements *)
+  Definition gen_write_chunk (hive : bool) (names : list str) (i : nat) (rows : list row) : list (str * list row) :=
+    map (fun g => (gen_relname (gen_dir_path F T D show_float show_time_iso show_time_str hive names (fst g)) (part_name i), snd g)) (group_by rows).
+  Definition gen_write_model (hive : bool) (names : list str) (chunks : list (list row)) : list (str * list row) :=
+    concat (mapi_from (gen_write_chunk hive names) O chunks).
+
+  (* ParquetFile(dir).to_pandas(): scheme and cats through the regenerated functions, cells through the model of read_row_group *)
+  Definition gen_read_model (pm : list (str * kind)) (ord : list str -> list str) (files : list (str * list row))
+    : option (scheme * list (list (str * value) * P)) :=
+    let paths := map fst files in
+    match gen_paths_to_cats F T D (gen_path_to_cats F T D val_to_num cats_add) pm paths (ord (dedup_str (map gen_strip_tail paths))) with
+    | Ok (Hive, c) => option_map (pair Hive) (read_files true pm c files)
+    | Ok (Drill, c) => option_map (pair Drill) (read_files false [] c files)
+    | Ok (s, _) => Some (s, concat (map (fun f => map (fun r => ([], snd r)) (snd f)) files))
+    | _ => None
+    end.
+
+  Lemma gen_read_model_is_model pm ord files : gen_read_model pm ord files = read_model pm ord files.
+  Proof.
+    unfold gen_read_model, Partition.read_model. cbv zeta.
+    rewrite (gen_paths_to_cats_composed F T D feqb teqb deqb f_eq_Z parse_float parse_time_np parse_time_fmt parse_time_pd parse_delta).
+    rewrite (map_ext gen_strip_tail strip_tail gen_strip_tail_is_model). reflexivity.
+  Qed.
+
+  Lemma mapi_from_ext {A B} (f g : nat -> A -> B) : (forall i x, f i x = g i x) -> forall l i, mapi_from f i l = mapi_from g i l.
+  Proof. intros H l. induction l as [|x l IH]; intros i; cbn; [reflexivity|]. rewrite H, IH. reflexivity. Qed.
+
+  Lemma gen_write_model_hive names chunks : gen_write_model true names chunks = write_model true names chunks.
+  Proof.
+    unfold gen_write_model, Partition.write_model. f_equal. apply mapi_from_ext. intros i rows.
+    unfold gen_write_chunk, Partition.write_chunk. apply map_ext. intros g. f_equal.
+    apply (gen_relname_is_model F T D show_float show_time_iso show_time_str). discriminate.
+  Qed.
+
+  (* C08_multiset_hive on the regenerated text *)
+  Theorem gen_multiset_hive :
+    forall (pm : list (str * kind)) (names : list str), NoDup names -> names <> [] -> Forall legal names ->
+    forall ord : list str -> list str, (forall l x, In x (ord l) <-> In x l) ->
+    forall chunks : list (list row),
+    frame_ok F T D P names (Pv_hive F T D show_float parse_float show_time_iso show_time_str parse_time_np parse_time_fmt pm) (concat chunks) ->
+    exists sch out,
+      gen_read_model pm ord (gen_write_model true names chunks) = Some (sch, out) /\
+      Permutation out (map (expect F T D P names (unwrap F T D)) (filter (nonnull F T D P) (concat chunks))) /\
+      (filter (nonnull F T D P) (concat chunks) <> [] -> sch = Hive).
+  Proof.
+    intros pm names Hnd Hne Hleg ord Hord chunks Hok. rewrite gen_write_model_hive, gen_read_model_is_model.
+    exact (hive_e2e F T D feqb teqb deqb f_eq_Z show_float parse_float show_time_iso show_time_str
+             parse_time_np parse_time_fmt parse_time_pd parse_delta feqb_spec teqb_spec deqb_spec P pm names Hnd Hne Hleg ord Hord chunks Hok).
+  Qed.
+End GenE2E.
+Print Assumptions gen_multiset_hive.
